@@ -305,7 +305,7 @@ def _legs(tier):
         Leg('strace', gen_strace, monitor=monitor_strace, nontrivial=nontrivial, shrink=shrink, neighbours=neighbours,
             stats=stats_strace, compare=compare_drop(4),
             rule='PRNG cases of 1-4 outputs in 1-2 directories, sizes 0..300000 around the 8 KiB copy buffer, 4 modes, '
-                 'optional members, old file present/absent/a directory, missing output directory, one (sometimes two) '
+                 'optional members (absent: skipped; stored but unreadable: the extraction fails), old file present/absent/a directory, missing output directory, one (sometimes two) '
                  'damaged members (missing / first, middle, last byte of the stored zstd stream flipped) at the 2nd, last '
                  'or a random position; non-trivial = an existing file is replaced or a member fails; distinct by case text'),
         Leg('live', gen_live, monitor=monitor_live, nontrivial=nontrivial, shrink=shrink,
